@@ -169,6 +169,45 @@ def histories(M, rec, rng, reps):
                         rec.count("removed_links_put_back")
                         if not netmon.compare_state(rec, PROP, netmon.graph_state(net), st, (how + " of a link that had been removed through the graph",)):
                             break
+            if (st["org"] or st["dst"]) and rng.random() < 0.12:
+                # an attachment (or its whole node) is removed through the graph, and the stretch is rebuilt with
+                # the very same origin / destination object through add_path or add_origin / add_destination
+                byid = {id(x): x for x in N + L + O + Dd}
+                what = rng.choice([w_ for w_, tab_ in (("origin", st["org"]), ("destination", st["dst"])) if tab_])
+                nid_, eid_ = rng.choice(list((st["org"] if what == "origin" else st["dst"]).items()))
+                if nid_ in byid and eid_ in byid:
+                    n_, e_ = byid[nid_], byid[eid_]
+                    if rng.random() < 0.6:
+                        # routes are added piecewise, each naming the boundary element of its end node again
+                        o2, l2_ = rng.choice(N), rng.choice(L)
+                        if what == "origin":
+                            net.add_path((n_, l2_, o2), origin=e_)
+                            st = netmon.model_apply(st, ("add_path", [n_, l2_, o2], e_, None))
+                        else:
+                            net.add_path((o2, l2_, n_), destination=e_)
+                            st = netmon.model_apply(st, ("add_path", [o2, l2_, n_], None, e_))
+                    if rng.random() < 0.5:
+                        rng.choice((net.G, net.graph)).remove_node(n_)
+                        st = netmon.model_apply(st, ("remove_node", n_))
+                    else:
+                        del net.G.nodes[n_][what]
+                        st = netmon.model_apply(st, ("detach", n_, what))
+                    rec.count("attachments_removed_through_the_graph")
+                    if rng.random() < 0.8:
+                        other = rng.choice(N)
+                        lk_ = rng.choice(L)
+                        how = rng.choice(("add_path", "add_path", "direct"))
+                        if how == "direct":
+                            (net.add_origin if what == "origin" else net.add_destination)(e_, n_)
+                            st = netmon.model_apply(st, ("add_origin" if what == "origin" else "add_destination", e_, n_))
+                        elif what == "origin":
+                            net.add_path((n_, lk_, other), origin=e_)
+                            st = netmon.model_apply(st, ("add_path", [n_, lk_, other], e_, None))
+                        else:
+                            net.add_path((other, lk_, n_), destination=e_)
+                            st = netmon.model_apply(st, ("add_path", [other, lk_, n_], None, e_))
+                        if not netmon.compare_state(rec, PROP, netmon.graph_state(net), st, (how + " re-attaching what had been removed through the graph",)):
+                            break
             if rng.random() < 0.15:
                 # an object that may already be in the network gets another name (a plain public attribute):
                 # it is still the same node / link / origin for every later call
